@@ -4,6 +4,7 @@
 #define VERIF_GEOM_MESH_H
 #include "SimTKcommon.h"
 #include "hcommon.h"
+#include <algorithm>
 #include <array>
 #include <map>
 #include <vector>
@@ -48,11 +49,23 @@ inline Mesh torusMesh(double R, double r, int nu, int nv) {
     return m;
 }
 // kind 0: radially perturbed icosphere (star shaped, non convex); 1: anisotropically scaled + perturbed; 2: box with random
-// half lengths (long thin triangles when the aspect ratio is large); 3: torus (genus 1)
+// half lengths (long thin triangles when the aspect ratio is large); 3: torus (genus 1); 4: sheared flattened icosphere
+// (sliver / obtuse faces); 5: thin tetrahedron over a strongly obtuse base
 inline Mesh makeMesh(int kind, uint64_t seed, int sub) {
     vh::Rng g(seed * 2654435761ull + 17);
     if (kind == 2) return boxMesh(Vec3(g.range(0.2, 1.5), g.range(0.2, 1.5), g.range(0.05, 1.5)));
     if (kind == 3) return torusMesh(g.range(0.8, 1.5), g.range(0.15, 0.5), 6 + 3 * sub, 5 + 2 * sub);
+    if (kind == 5) {   // thin tetrahedron: a strongly obtuse / sliver base triangle and a low apex
+        double w = g.range(0.02, 0.3), x = g.range(0.1, 0.9), h = g.range(0.01, 0.3);
+        Mesh t; t.V = {Vec3(0, 0, 0), Vec3(1, 0, 0), Vec3(x, w, 0), Vec3(g.range(0.2, 0.8), 0.4 * w, -h)};
+        t.F = {{0, 1, 2}, {0, 3, 1}, {1, 3, 2}, {2, 3, 0}};
+        // cyclic relabelling so that the obtuse corner sits at each vertex position in turn
+        int r = (int)(seed % 3); for (auto& f : t.F) std::rotate(f.begin(), f.begin() + r, f.end());
+        return t; }
+    if (kind == 4) {   // sheared, flattened icosphere: mostly sliver and obtuse faces
+        Mesh m = icosphere(sub); double sx = g.range(0.6, 1.5), sy = g.range(0.03, 0.15), sz = g.range(0.2, 0.6), sh = g.range(-3, 3), sh2 = g.range(-2, 2);
+        for (auto& v : m.V) { double k = 1 + g.range(-0.1, 0.1); Vec3 q(v[0]*sx*k, v[1]*sy*k, v[2]*sz*k); v = Vec3(q[0] + sh * q[1] + sh2 * q[2], q[1], q[2]); }
+        return m; }
     Mesh m = icosphere(sub);
     Vec3 s = kind == 1 ? Vec3(g.range(0.4, 1.5), g.range(0.4, 1.5), g.range(0.4, 1.5)) : Vec3(1);
     for (auto& v : m.V) { double k = 1 + g.range(-0.2, 0.2); v = Vec3(v[0]*s[0]*k, v[1]*s[1]*k, v[2]*s[2]*k); }
